@@ -314,8 +314,6 @@ theorem inv_killLosersDone (s : State) (hi : Inv cfg s) (v : Bool) (w k : Nat) (
     Inv cfg { s with p := .returned v w } := by
   obtain ⟨len, chan, queue, putting, wServing, wQueued, wAnswer, wRaise, kLosers, kAll, ret, await, raised⟩ := hi
   constructor <;> simp only [] <;> try (first | assumption | grind [inSolve])
-  all_goals trace_state
-  all_goals sorry
 
 theorem inv_killAllStep (s : State) (hi : Inv cfg s) (e : Err) (k : Nat) (hp : s.p = .killAll e k)
     (hk : k < s.ms.length) :
@@ -352,8 +350,6 @@ theorem inv_recvReply (s : State) (hi : Inv cfg s) (v : Bool) (w q j q' : Nat) (
     Inv cfg { s with reply := r, p := .returned v w, served := s.served ++ [(j, q')] } := by
   obtain ⟨len, chan, queue, putting, wServing, wQueued, wAnswer, wRaise, kLosers, kAll, ret, await, raised⟩ := hi
   constructor <;> simp only [] <;> try (first | assumption | grind [inSolve])
-  all_goals trace_state
-  all_goals sorry
 
 theorem inv_fresh (s : State) : Inv cfg (fresh cfg s) := by
   constructor <;> simp only [fresh] <;> try (first | assumption | grind [inSolve])
@@ -368,8 +364,6 @@ theorem inv_ask (s : State) (hi : Inv cfg s) (v : Bool) (w q : Nat) (hp : s.p = 
     Inv cfg { s with ctrl := s.ctrl ++ [.query q], p := .awaiting v w q } := by
   obtain ⟨len, chan, queue, putting, wServing, wQueued, wAnswer, wRaise, kLosers, kAll, ret, await, raised⟩ := hi
   constructor <;> simp only [] <;> try (first | assumption | grind [inSolve])
-  all_goals trace_state
-  all_goals sorry
 
 theorem inv_istep (s t : State) (hi : Inv cfg s) (h : IStep cfg s t) : Inv cfg t := by
   cases h with
